@@ -21,7 +21,7 @@
 EXTENDS Integers, Sequences, FiniteSets, TLC
 
 CONSTANTS Keys, Iters, MaxRev,
-          Mutant   \* "none" | "ignoreZero" | "closeNoTrigger" | "keepOnReinsert" | "markSnapshot" | "reuseRevision"
+          Mutant   \* "none" | "ignoreZero" | "closeNoTrigger" | "keepOnReinsert" | "markSnapshot" | "reuseRevision" | "dropTriggerAfterPass"
 
 VARIABLES rev,      \* table revision
           live,     \* k -> revision of the live object (0 = absent)
@@ -135,7 +135,10 @@ GCApply ==
     /\ gc.phase = "scanned"
     /\ grave' = grave \ gc.dead
     /\ gc' = [phase |-> "idle", dead |-> {}]
-    /\ UNCHANGED << rev, live, ideal, it, trig >>
+    \* (mutant: requests that arrived during the pass are dropped as "served by it", although the set the pass
+    \*  removes was fixed by its scan)
+    /\ trig' = IF Mutant = "dropTriggerAfterPass" THEN FALSE ELSE trig
+    /\ UNCHANGED << rev, live, ideal, it >>
 
 Env == \E k \in Keys : Upsert(k) \/ Delete(k)
 Iter == \E i \in Iters : NewIter(i) \/ NextStart(i) \/ Deliver(i) \/ Finish(i) \/ Break(i) \/ Close(i)
